@@ -16,6 +16,7 @@ import (
 
 	lisp "github.com/jig/lisp"
 	"github.com/jig/lisp/repl"
+	"github.com/jig/lisp/types"
 
 	"verifharness/internal/enum"
 	"verifharness/internal/lx"
@@ -224,7 +225,7 @@ func init() {
 		}
 		fam := &vf.Family{
 			Name:   "expressions",
-			Bounds: "all well-formed expressions of weight <=5 (quick) / <=6 (thorough) over list/vector (0-3 elements), map (0-2 entries), set (0-2 members), quote prefix, atoms incl. strings and raw strings containing bracket characters, comments containing ')'; each: every token-boundary cut, each closer appended, each closer replaced, a second expression appended",
+			Bounds: "all well-formed expressions of weight <=5 (quick) / <=6 (thorough) over list/vector (0-3 elements), map (0-2 entries), set (0-2 members), quote prefix, atoms incl. strings and raw strings containing bracket characters, comments containing ')'; each: every token-boundary cut, each closer appended, each closer replaced, a second expression (complete, or still open in 7 ways) appended",
 			Setup:  func(t string) { tier = t },
 			N:      func(t string) int64 { tier = t; return gOf().Count(0, wOf()) },
 			Describe: func(i int64) string { return strconv.Quote(strings.Join(toksOf(gOf().Unrank(0, i)), " ")) },
@@ -278,7 +279,12 @@ func init() {
 					}
 					bad = append(bad, c+" "+full)
 				}
-				bad = append(bad, full+" a", full+" "+full, full+" (")
+				bad = append(bad, full+" a", full+" "+full)
+				// a complete expression followed by a second one that is still open: more than one
+				// expression, and no appended closer can make it one (the REPL must not keep reading)
+				for _, open := range []string{"(", "(c", "[1 (2", "{:a", "#{", "'(", "(c) (d"} {
+					bad = append(bad, full+" "+open, full+"\n"+open)
+				}
 				for _, text := range bad {
 					k, m, multi := c16Read(text, r)
 					switch {
@@ -287,11 +293,6 @@ func init() {
 					case k == "panic":
 						r.ViolationCase("reader panics on malformed input", strconv.Quote(text), m)
 					case k == "incomplete" || multi:
-						// `E (` is genuinely neither: one complete expression followed by an open one
-						if strings.HasSuffix(text, " (") && text == full+" (" {
-							r.Note("two-expression text ending in an open bracket reported as incomplete (unconstrained)")
-							continue
-						}
 						r.ViolationCase("malformed input reported as incomplete", strconv.Quote(text), m)
 					}
 				}
@@ -337,11 +338,97 @@ func init() {
 				}
 			},
 		}
+		// a read that happens while another read is in progress: a Go constructor form «rd "text"»
+		// whose constructor reads its argument with lisp.READ (constructors run during reading)
+		var nestEnv types.EnvType
+		nestW := func() int {
+			if tier == "thorough" {
+				return 6
+			}
+			return 5
+		}
+		var gn *enum.Grammar
+		gnOf := func() *enum.Grammar {
+			if gn == nil {
+				gn = c16Grammar(nestW())
+			}
+			return gn
+		}
+		nestFixed := []string{"(a b c d e f g)", "(p q r s t u)", "[1 [2 [3 [4 5]]] 6]", "{:a (1 2 3) :b [4 5 6]}"}
+		nested := &vf.Family{
+			Name:   "nested-reads",
+			Bounds: "every well-formed expression E of weight <=5 (quick) / <=6 (thorough) without string tokens, and 4 longer fixed ones, read by a Go constructor while an outer text is being read: the outer texts [«rd \"E\"» y], (x «rd \"E\"» (y) z) and their cut before the last closer; the outer result must contain exactly READ(E) and its own remaining elements, and the cut must be reported as incomplete with the right closer",
+			Setup: func(t string) {
+				tier = t
+				nestEnv = env.NewEnv()
+				nestEnv.Set(types.Symbol{Val: "new-rd"}, types.Func{Fn: func(ctx context.Context, a []types.MalType) (types.MalType, error) {
+					txt, _ := a[0].(string)
+					return lisp.READ(txt, nil, nil)
+				}})
+			},
+			N:      func(t string) int64 { tier = t; return gnOf().Count(0, nestW()) + int64(len(nestFixed)) },
+			Describe: func(i int64) string {
+				if n := gnOf().Count(0, nestW()); i >= n {
+					return "nested read of " + nestFixed[i-n]
+				}
+				return "nested read of " + strings.Join(toksOf(gnOf().Unrank(0, i)), " ")
+			},
+			Run: func(i int64, r *vf.Rec) {
+				var inner string
+				if n := gnOf().Count(0, nestW()); i >= n {
+					inner = nestFixed[i-n]
+				} else {
+					inner = strings.Join(toksOf(gnOf().Unrank(0, i)), " ")
+				}
+				if strings.ContainsAny(inner, "\"\\¬\n") {
+					r.Note("skipped: expression with string/comment tokens (would need escaping inside the constructor's argument)")
+					return
+				}
+				alone, err, p := lx.Read(inner)
+				if err != nil || p != nil {
+					r.Note("skipped: inner expression does not read alone (expressions family)")
+					return
+				}
+				iv := model.FromImpl(alone)
+				readNs := func(text string) (types.MalType, error, *lx.Panic) {
+					var res types.MalType
+					var e error
+					pn := lx.Guard(func() { res, e = lisp.READ(text, nil, nestEnv) })
+					return res, e, pn
+				}
+				for _, o := range []struct{ text, want, closer string }{
+					{`[«rd "` + inner + `"» y]`, model.Vec(iv, sym("y")).String(), "]"},
+					{`(x «rd "` + inner + `"» (y) z)`, model.List(sym("x"), iv, model.List(sym("y")), sym("z")).String(), ")"},
+				} {
+					r.Exec(2)
+					r.NT()
+					res, e, pn := readNs(o.text)
+					switch {
+					case pn != nil:
+						r.ViolationCase("reader panics during a nested read", strconv.Quote(o.text), pn.String())
+						return
+					case e != nil:
+						r.ViolationCase("complete text with a nested read is rejected", strconv.Quote(o.text), e.Error())
+						return
+					case model.FromImpl(res).String() != o.want:
+						r.ViolationCase("nested read changes what the outer text reads as", strconv.Quote(o.text), "want "+o.want+", got "+model.FromImpl(res).String())
+						return
+					}
+					cut := o.text[:len(o.text)-1]
+					_, e, pn = readNs(cut)
+					wantMsg := "expected '" + o.closer + "'" + c16EOF
+					if pn != nil || e == nil || !strings.HasSuffix(e.Error(), wantMsg) {
+						r.ViolationCase("incomplete text with a nested read not reported as 'expected <closer>, got EOF'", strconv.Quote(cut), fmt.Sprintf("want %q, got err=%v panic=%v", wantMsg, e, pn))
+						return
+					}
+				}
+			},
+		}
 		return &vf.Check{
 			ID: "C16", Level: "model_checking",
 			Rule: "every well-formed expression of the bounded grammar is cut at every token boundary and extended/mutated by every closing bracket; an independent bracket-stack recogniser decides which cuts are completable by closers and names the innermost closer; the reader's error and the REPL's own multiLine verdict (through a test-only export) must match; non-trivial = the expression had at least one constrained cut",
 			Assumptions: []string{"cuts are at token boundaries; cuts ending in a prefix macro, an odd map or a non-string key are outside the property"},
-			Families: []*vf.Family{fam, sessions},
+			Families: []*vf.Family{fam, nested, sessions},
 		}
 	})
 }
